@@ -1,96 +1,7 @@
-/-
-  C03 — the token scan of `_parse_source_for_lambda`: where a lambda's extent ends and which lambdas of a logical line become
-  candidates (the tokens themselves come from CPython's tokenizer, and the extent is handed to CPython's parser: outside).
--/
-import Fadl.Props.C03
+import Fadl.Props.C03Scan
 namespace Fadl
 set_option linter.unusedSimpArgs false
 set_option linter.unusedVariables false
-
-/-- bracket depth after a list of tokens -/
-def depthAfter : List Token → Int × Int × Int → Int × Int × Int
-  | [], d => d
-  | t :: ts, (p, b, c) =>
-    depthAfter ts
-      (if t.kind = .op then (if t.text = "(" then p + 1 else if t.text = ")" then p - 1 else p) else p,
-       if t.kind = .op then (if t.text = "[" then b + 1 else if t.text = "]" then b - 1 else b) else b,
-       if t.kind = .op then (if t.text = "{" then c + 1 else if t.text = "}" then c - 1 else c) else c)
-
-/-- no `,` / `)` of the body stands at bracket depth zero (counted from depth `d`) -/
-def NoTopStop : List Token → Int × Int × Int → Prop
-  | [], _ => True
-  | t :: ts, (p, b, c) =>
-    ¬ (t.kind = .op ∧ (t.text = "," ∨ t.text = ")") ∧ p = 0 ∧ b = 0 ∧ c = 0) ∧
-    NoTopStop ts
-      (if t.kind = .op then (if t.text = "(" then p + 1 else if t.text = ")" then p - 1 else p) else p,
-       if t.kind = .op then (if t.text = "[" then b + 1 else if t.text = "]" then b - 1 else b) else b,
-       if t.kind = .op then (if t.text = "{" then c + 1 else if t.text = "}" then c - 1 else c) else c)
-
-/-- **C03 (extent)**: if the tokens after `lambda` are `body ++ stop :: rest`, no `,` / `)` of `body` stands at bracket
-    depth zero, and `stop` is a `,` or `)` met at depth zero, then the scan hands exactly `body` (comments dropped) to the
-    parser and leaves `rest` in the tokenizer — whatever follows. -/
-theorem tokensTill_extent : ∀ (body : List Token) (stop : Token) (rest : List Token) (p b c : Int),
-    NoTopStop body (p, b, c) → depthAfter body (p, b, c) = (0, 0, 0) →
-    stop.kind = .op → (stop.text = "," ∨ stop.text = ")") →
-    tokensTill (body ++ stop :: rest) p b c = body.filter (fun t => t.kind != .comment) ∧
-    tokensTillRest (body ++ stop :: rest) p b c = rest
-  | [], stop, rest, p, b, c, _, hd, hk, ht => by
-    simp only [depthAfter, Prod.mk.injEq] at hd
-    obtain ⟨rfl, rfl, rfl⟩ := hd
-    simp [tokensTill, tokensTillRest, hk, ht]
-  | t :: body, stop, rest, p, b, c, hn, hd, hk, ht => by
-    simp only [NoTopStop] at hn
-    obtain ⟨hn1, hn2⟩ := hn
-    simp only [depthAfter] at hd
-    obtain ⟨ih1, ih2⟩ := tokensTill_extent body stop rest _ _ _ hn2 hd hk ht
-    simp only [List.cons_append, tokensTill, tokensTillRest, hn1, if_false]
-    constructor
-    · by_cases hc : t.kind = .comment
-      · have hop : ¬ t.kind = .op := by rw [hc]; decide
-        simp only [hop, if_false] at ih1
-        simp only [hc, if_true, List.filter_cons]
-        simp only [show (TKind.comment = TKind.op) = False from by simp, if_false, ih1]
-        simp
-      · simp only [hc, if_false, ih1, List.filter_cons]; simp [hc]
-    · exact ih2
-
-
-/-- **C03 (scan)**: one turn of the loop over the lambdas of a logical line.  If the tokens after a `lambda` keyword are
-    `body ++ stop :: rest` with `body` free of top-level `,` / `)` and of newlines, the scan records `(key, body)` for it and
-    goes on from `rest`: the next candidate is the next `lambda` NAME token before any NEWLINE, keyed by the NAME token
-    that precedes it. -/
-theorem scanLine_step (fuel : Nat) (key : Option Token) (body : List Token) (stop : Token) (rest : List Token)
-    (hn : NoTopStop body (0, 0, 0)) (hd : depthAfter body (0, 0, 0) = (0, 0, 0))
-    (hk : stop.kind = .op) (ht : stop.text = "," ∨ stop.text = ")")
-    (hnl : sawNewline (body.filter (fun t => t.kind != .comment)) = false) :
-    scanLine (fuel + 1) key (body ++ stop :: rest) =
-      (key.map (·.text), body.filter (fun t => t.kind != .comment)) ::
-        (match findIdentifier ["lambda"] false rest Option.none with
-         | some (key', _, rest') => scanLine fuel key' rest'
-         | Option.none => []) := by
-  obtain ⟨h1, h2⟩ := tokensTill_extent body stop rest 0 0 0 hn hd hk ht
-  simp only [scanLine, lambdaExtent, h1, h2, hnl]
-  cases findIdentifier ["lambda"] false rest Option.none with
-  | none => simp
-  | some r => obtain ⟨a, b, c⟩ := r; simp
-
-/-- a lambda whose extent contains a NEWLINE token ends the scan of the line -/
-theorem scanLine_newline (fuel : Nat) (key : Option Token) (ts : List Token)
-    (hnl : sawNewline (tokensTill ts 0 0 0) = true) :
-    scanLine (fuel + 1) key ts = [(key.map (·.text), tokensTill ts 0 0 0)] := by
-  simp [scanLine, lambdaExtent, hnl]
-
-/-- Worked instance: `ds.Select(lambda x: f(x, 1)).Where(lambda y: y[0, 1] > 2)` followed by NEWLINE — the tokens after
-    the first `lambda`; two candidates, keyed Select and Where, each with exactly its own tokens. -/
-example :
-    scanLine 10 (some ⟨.name, "Select"⟩)
-      [⟨.name, "x"⟩, ⟨.op, ":"⟩, ⟨.name, "f"⟩, ⟨.op, "("⟩, ⟨.name, "x"⟩, ⟨.op, ","⟩, ⟨.other, "1"⟩, ⟨.op, ")"⟩, ⟨.op, ")"⟩,
-       ⟨.op, "."⟩, ⟨.name, "Where"⟩, ⟨.op, "("⟩, ⟨.name, "lambda"⟩, ⟨.name, "y"⟩, ⟨.op, ":"⟩, ⟨.name, "y"⟩, ⟨.op, "["⟩,
-       ⟨.other, "0"⟩, ⟨.op, ","⟩, ⟨.other, "1"⟩, ⟨.op, "]"⟩, ⟨.op, ">"⟩, ⟨.other, "2"⟩, ⟨.op, ")"⟩, ⟨.newline, "\n"⟩]
-    = [(some "Select", [⟨.name, "x"⟩, ⟨.op, ":"⟩, ⟨.name, "f"⟩, ⟨.op, "("⟩, ⟨.name, "x"⟩, ⟨.op, ","⟩, ⟨.other, "1"⟩, ⟨.op, ")"⟩]),
-       (some "Where", [⟨.name, "y"⟩, ⟨.op, ":"⟩, ⟨.name, "y"⟩, ⟨.op, "["⟩, ⟨.other, "0"⟩, ⟨.op, ","⟩, ⟨.other, "1"⟩, ⟨.op, "]"⟩,
-          ⟨.op, ">"⟩, ⟨.other, "2"⟩])] := by
-  decide
 
 /-! ### a logical line of operator calls: which candidates the scan records -/
 
@@ -172,6 +83,11 @@ theorem scanLine_calls : ∀ (ss : List CallSeg) (fuel : Nat) (key : Option Toke
       rw [scanLine_calls ss fuel (lastName s.gap Option.none) s.body s.stop tail
         (fun u hu => hok u (List.mem_cons_of_mem _ hu)) (by simp only [List.length_cons] at hf; omega) sn sd sk st snl htail]
 
+end Fadl
+
+namespace Fadl
+set_option linter.unusedSimpArgs false
+set_option linter.unusedVariables false
 
 theorem zipIdx_fst_idx {α : Type} : ∀ (l : List α) (n : Nat) (p : α × Nat), p ∈ l.zipIdx n → n ≤ p.2
   | [], _, _, h => by simp at h
